@@ -61,12 +61,21 @@ def _pick_table(w, deck, a):
     if not ts:
         raise O.Skip("no modelled table")
     sl, sh = ts[a.get("table", 0) % len(ts)]
-    return sl, sh, sh.table, _memo(deck)[_key(sl, sh)]
+    tbl = sh.table
+    if a.get("held"):
+        # the Table object itself is kept by the caller across edits
+        k = ("c14table", sl.slide_id, sh.shape_id)
+        if k in deck.handles:
+            tbl = deck.handles[k]
+            w.stats.hit("c14_kept_table_object_used")
+        else:
+            deck.handles[k] = tbl
+    return sl, sh, tbl, _memo(deck)[_key(sl, sh)]
 
 
 def _cell(deck, sh, tbl, r, c, held):
     if held:
-        k = ("c14cell", sh.shape_id, r, c)
+        k = ("c14cell", str(sh.part.partname), sh.shape_id, r, c)     # shape ids are only unique within one slide
         h = deck.handles.get(k)
         if h is not None:
             return h
@@ -137,12 +146,30 @@ def g_tbl(r, maxdim=6):
                       # a few bases plus a small offset: tables of one run (and of one process) share per-cell quotients and differ in remainders
                       w=r.choice([1, 7, 100, 914400 + r.randint(0, 6), 3000000 + r.randint(0, 6), r.randint(1, 9000000)]),
                       h=r.choice([1, 5, 99, 914400 + r.randint(0, 6), 2000000 + r.randint(0, 6), r.randint(1, 5000000)]),
-                      x=O.emu(r), y=O.emu(r)))
+                      x=O.emu(r), y=O.emu(r), via=r.choice(["shapes"] * 5 + ["placeholder"])))
 def _c14_add(w, deck, a):
     sl = O.nav_slide(w, deck, a)
     if len(_tables(w, deck, a)) >= 4:
         raise O.Skip("enough tables")
     R, C, W, H = a["rows"], a["cols"], a["w"], a["h"]
+    if a.get("via") == "placeholder":
+        # TablePlaceholder.insert_table(rows, cols): position and width come from the placeholder, row heights are the library's default
+        try:
+            sl, ph = O.nav_placeholder(w, deck, a, "insert_table")
+        except O.Skip:
+            ph = None
+        if ph is not None:
+            gf = ph.insert_table(R, C)
+            tbl = gf.table
+            if len(tbl.rows) != R or any(len(list(row.cells)) != C for row in tbl.rows) or len(tbl.columns) != C:
+                w.report("create|shape", "%dx%d requested through a table placeholder, got %dx%d" % (R, C, len(tbl.rows), len(tbl.columns)), CLAUSES["create"])
+            m = {"rows": R, "cols": C, "rects": [], "check_w": int(gf.width) == sum(int(c_.width) for c_ in tbl.columns),
+                 "check_h": int(gf.height) == sum(int(r_.height) for r_ in tbl.rows)}
+            _memo(deck)[_key(sl, gf)] = m
+            verify_grid(w, tbl, gf, m, "after-create")
+            w.stats.hit("c14_tables")
+            w.stats.hit("c14_tables_through_placeholder")
+            return
     gf = sl.shapes.add_table(R, C, a["x"], a["y"], W, H)
     tbl = gf.table
     m = {"rows": R, "cols": C, "rects": [], "check_w": True, "check_h": True}
@@ -250,7 +277,7 @@ def _c14_text(w, deck, a):
 
 
 @O.op("c14.resize", "c14", weight=2.0)
-@O.gen(lambda r: dict(g_tbl(r), what=r.choice(["row", "col"]), v=r.choice([0, 1, 914400, r.randint(0, 4000000)])))
+@O.gen(lambda r: dict(g_tbl(r), what=r.choice(["row", "col"]), v=r.choice([0, 1, 914400, 914400, 300000, r.randint(0, 4000000)])))
 def _c14_resize(w, deck, a):
     sl, sh, tbl, m = _pick_table(w, deck, a)
     if a["what"] == "row":
@@ -368,6 +395,15 @@ def gen_trace(seed: int, tier: str) -> dict:
     # between the sessions the file is rewritten by a producer that omits the optional a:tblPr / a:txBody of empty cells, or spells
     # booleans (hMerge, vMerge, firstRow ...) as words
     common.rewritten_between_sessions(seed, events, rate=0.35)
+    rs_ = S("start")
+    if rs_.random() < 0.15:
+        # a deck whose layout 4 carries a TABLE placeholder: tables are created through it
+        pre = [{"op": "add_slide", "layout": 4, "dt": 1.0}, {"op": "add_slide", "layout": 4, "dt": 1.0}] + pre
+        for e in pre + events:
+            if e["op"] == "c14.add_table" and rs_.random() < 0.7:
+                e["via"] = "placeholder"
+        return {"property": ID, "seed": seed, "tier": tier, "config": {"max_slides": 6, "max_shapes": 12},
+                "start": [{"deck": "f-ph-unpopulated-placeholders.pptx"}], "events": pre + events}
     return {"property": ID, "seed": seed, "tier": tier, "config": {"max_slides": 4, "max_shapes": 12},
             "start": [{"deck": "default"}], "events": pre + events}
 
@@ -488,4 +524,19 @@ def pinned_traces(tier):
     evs += [{"op": "c14.merge", "table": 0, "r": 0, "c": 0, "r2": 1, "c2": 1}, {"op": "c14.cell_text", "table": 0, "r": 2, "c": 2, "text": "after"},
             {"op": "c14.resize", "table": 0, "r": 0, "c": 0, "what": "col", "v": 123456}, {"op": "checkpoint", "sink": "seekable"}, {"op": "restart"}]
     out.append({"property": ID, "seed": "late-failed-save-then-edit", "tier": "pinned", "config": {"pinned": True}, "start": [{"deck": "default"}], "events": evs})
+    # one Table object kept across edits that take the column sum away from the frame width and back again
+    evs = [{"op": "add_slide", "layout": 6}, {"op": "c14.add_table", "slide": 0, "rows": 2, "cols": 3, "w": 900000, "h": 600000, "x": 0, "y": 0}]
+    for c_, v_ in ((0, 600000), (1, 0), (0, 300000), (1, 300000), (2, 1), (2, 300000)):
+        evs.append({"op": "c14.resize", "table": 0, "r": 0, "c": c_, "what": "col", "v": v_, "held": True})
+    for r_, v_ in ((0, 900000), (1, 0), (0, 300000), (1, 300000)):
+        evs.append({"op": "c14.resize", "table": 0, "r": r_, "c": 0, "what": "row", "v": v_, "held": True})
+    evs += [{"op": "checkpoint", "sink": "seekable"}, {"op": "restart"}]
+    out.append({"property": ID, "seed": "kept-table-object-sum-returns-to-the-frame-size", "tier": "pinned", "config": {"pinned": True}, "start": [{"deck": "default"}], "events": evs})
+    # tables created through a table placeholder, rows != cols
+    evs = []
+    for k, (R_, C_) in enumerate(((2, 3), (3, 1), (1, 4), (5, 2))):
+        evs += [{"op": "add_slide", "layout": 4}, {"op": "c14.add_table", "slide": 10 ** 6, "rows": R_, "cols": C_, "w": 900000, "h": 600000, "x": 0, "y": 0, "via": "placeholder"}]
+    evs += [{"op": "c14.merge", "table": 0, "r": 0, "c": 0, "r2": 1, "c2": 1}, {"op": "checkpoint", "sink": "seekable"}, {"op": "restart"}]
+    out.append({"property": ID, "seed": "tables-through-placeholders", "tier": "pinned", "config": {"pinned": True, "max_slides": 12},
+                "start": [{"deck": "f-ph-unpopulated-placeholders.pptx"}], "events": evs})
     return out
